@@ -292,7 +292,7 @@ fn exhaustive(bits: usize) -> Stats {
     let chunks = 64usize;
     let parts = util::par_jobs(chunks, |job| {
         let mut st = Stats::new();
-        for (i, (_s, h)) in states.iter().enumerate() {
+        for (i, (s, h)) in states.iter().enumerate() {
             if i % chunks != job {
                 continue;
             }
@@ -300,6 +300,24 @@ fn exhaustive(bits: usize) -> Stats {
                 let mut hist = h.clone();
                 hist.push(*op);
                 run_history(&mut st, bits, &hist, "bfs");
+            }
+            // the same state reached with REDUNDANT steps on the way: every operation that leaves
+            // the reference state as it is (inserting a member again, uniting with a subset,
+            // intersecting with a superset, removing a disjoint set, X = X) is executed before the
+            // next operation — a shortest history never contains such a step
+            if bits <= 2 || i % 4 == 1 {
+                let redundant: Vec<SetOp> = ops.iter().filter(|o| !matches!(o, SetOp::Contains(..)) && apply_ref(*s, **o, bits) == *s).cloned().collect();
+                for (k, op) in ops.iter().enumerate() {
+                    let mut hist = h.clone();
+                    if k % 2 == 0 {
+                        hist.extend(redundant.iter().cloned());
+                    } else {
+                        hist.extend(redundant.iter().rev().cloned());
+                    }
+                    hist.push(*op);
+                    run_history(&mut st, bits, &hist, "bfs-with-redundant-steps");
+                    st.bump("histories_with_redundant_steps");
+                }
             }
         }
         st
@@ -429,7 +447,7 @@ fn mixed_width_job(ctx: &Ctx, job: usize, histories: u64) -> Stats {
         let len = 6 + rng.usize(40);
         let mut ops: Vec<(u64, usize, usize, u64)> = Vec::new();
         for _ in 0..len {
-            ops.push((rng.below(8), rng.usize(widths.len()), rng.usize(2), rng.next()));
+            ops.push((rng.below(10), rng.usize(widths.len()), rng.usize(2), rng.next()));
         }
         st.evals += 1;
         st.bump("mixed_width_histories");
@@ -439,7 +457,7 @@ fn mixed_width_job(ctx: &Ctx, job: usize, histories: u64) -> Stats {
         let observed = guarded(move || {
             let env = Rc::new(BDDEnv::new());
             let widths = widths2;
-            let sets: Vec<BDDSet> = widths.iter().map(|b| BDDSet::with_env(*b, &env)).collect();
+            let mut sets: Vec<BDDSet> = widths.iter().map(|b| BDDSet::with_env(*b, &env)).collect();
             let mut refs: Vec<BTreeSet<usize>> = widths.iter().map(|_| BTreeSet::new()).collect();
             let mut seen: Vec<Vec<usize>> = widths.iter().map(|_| Vec::new()).collect(); // elements used so far, for wide sets
             let mut trace: Vec<String> = Vec::new();
@@ -476,6 +494,22 @@ fn mixed_width_job(ctx: &Ctx, job: usize, histories: u64) -> Stats {
                         let other = refs[o].clone();
                         refs[w].retain(|e| !other.contains(e));
                         trace.push(format!("{}.complement({})", name(w), name(o)));
+                    }
+                    8 => {
+                        // a set made by the other constructors replaces S[w]: a singleton ...
+                        let e = if b >= 64 { *x as usize } else { (*x as usize) & ((1usize << b) - 1) };
+                        sets[w] = BDDSet::from_element(e, b, &env);
+                        refs[w] = [e].into_iter().collect();
+                        seen[w].push(e);
+                        seen[w ^ 1].push(e);
+                        trace.push(format!("{} = from_element({:#x})", name(w), e));
+                    }
+                    9 => {
+                        // ... or a set over the diagram of its partner
+                        let d = sets[o].bdd.borrow().clone();
+                        sets[w] = BDDSet::from_bdd(&d, b, &env);
+                        refs[w] = refs[o].clone();
+                        trace.push(format!("{} = from_bdd({}.bdd)", name(w), name(o)));
                     }
                     6 if b <= 6 => {
                         sets[w].universe();
@@ -658,7 +692,7 @@ pub fn run(ctx: &Ctx) -> (Stats, Spec) {
         super::common::miri_tripwire(ctx, &mut st, 150);
     }
     let spec = Spec {
-        rule: "breadth-first over reference states: two sets sharing one environment, each (state pair, next operation — insert, union, intersect, complement, empty, universe, contains, and `X = Y.clone()`) executed on fresh real sets via the shortest history reaching the state; then all memberships of both sets are read twice through contains() and the public bdd field is compared across the queries; plus histories on WIDE sets (b in {31, 32, 33, 40, 48, 63, 64} with usize elements or a user-defined element type, b in {65, 66, 72, 96, 127, 128} with a user-defined 128-bit element type) over pools of sampled elements, their one-bit neighbours and (b > 64) elements equal modulo 2^64; plus histories over six to eight sets of DIFFERENT widths (families {1,2,3}, {2,3,4,5}, {3,4}, {0,1,6}, {4,64}, {2,33,5}, {3,3,4,4}; two sets per width) in one environment, all memberships of all sets read back after every step; plus ONE long history of two 64-bit sets in one environment that grows beyond 1.4 million [quick] / 5 million [thorough] nodes, memberships of the newest, older and never-inserted elements compared after every step; plus random histories of length 5-64 [quick] / 5-504 [thorough] with b in 2..4. distinct = (state pair before the last operation, last operation, b); non-trivial = both sets neither empty nor the universe.".into(),
+        rule: "breadth-first over reference states: two sets sharing one environment, each (state pair, next operation — insert, union, intersect, complement, empty, universe, contains, and `X = Y.clone()`) executed on fresh real sets via the shortest history reaching the state, and again (b <= 2: always, b = 3: every fourth state) after all REDUNDANT steps of that state (operations that leave the reference state unchanged); then all memberships of both sets are read twice through contains() and the public bdd field is compared across the queries; plus histories on WIDE sets (b in {31, 32, 33, 40, 48, 63, 64} with usize elements or a user-defined element type, b in {65, 66, 72, 96, 127, 128} with a user-defined 128-bit element type) over pools of sampled elements, their one-bit neighbours and (b > 64) elements equal modulo 2^64; plus histories over six to eight sets of DIFFERENT widths (families {1,2,3}, {2,3,4,5}, {3,4}, {0,1,6}, {4,64}, {2,33,5}, {3,3,4,4}; two sets per width) in one environment (sets also re-made through from_element and from_bdd), all memberships of all sets read back after every step; plus ONE long history of two 64-bit sets in one environment that grows beyond 1.4 million [quick] / 5 million [thorough] nodes, memberships of the newest, older and never-inserted elements compared after every step; plus random histories of length 5-64 [quick] / 5-504 [thorough] with b in 2..4. distinct = (state pair before the last operation, last operation, b); non-trivial = both sets neither empty nor the universe.".into(),
         assumptions: vec![
             "only elements < 2^b are used (the statement speaks of b-bit integers)".into(),
             "`complement` is set difference, as the statement says".into(),
@@ -666,6 +700,7 @@ pub fn run(ctx: &Ctx) -> (Stats, Spec) {
         ],
         floors: vec![
             ("self_aliased_ops".into(), 100, "self-aliased operands never exercised".into()),
+            ("histories_with_redundant_steps".into(), 1_000, "redundant steps never exercised".into()),
             ("wide_set_histories".into(), 200, "wide sets (b >= 31) never exercised".into()),
             ("wide_set_histories_with_a_user_defined_element_type".into(), 50, "sets over a user-defined element type never exercised".into()),
             ("mixed_width_histories".into(), 500, "sets of different widths in one environment never exercised".into()),
